@@ -85,6 +85,7 @@ def _interp_clamp(aps, fl, r):
 
 
 def judge(case, im, mo):
+    tol8 = 1e-6 if case.get('ap_dtype') == 'float32' else 1e-8      # a single-precision aperture table is interpolated with single-precision abscissae
     import numpy as np
     tags = ['nb=%d' % len(case['wav']), 'nm=%d' % len(case['names']), 'kind=' + case.get('kind', 'ok'),
             'drange=%s' % ('equal' if case['drange'][0] == case['drange'][1] else 'range')]
@@ -150,7 +151,7 @@ def judge(case, im, mo):
             fail.append('row: row %d names %s but carries index %d' % (i, name, mid))
             continue
         r = res[mid]
-        d3, k = fitcase.cmp3d_row(im, i, r, 1e-8)
+        d3, k = fitcase.cmp3d_row(im, i, r, tol8)
         for x in d3:
             (fail if x.startswith('scale') or 'not the grid minimum' in x else disagree).append(('gridmin: ' if 'minimum' in x else 'scale: ' if x.startswith('scale') else '') + '%s: %s' % (name, x))
         if len(ds) > 1 and fitcase.canon_chi(im['chi2'][i]) != 'HUGE':
@@ -162,12 +163,12 @@ def judge(case, im, mo):
         for j in range(len(case['wav'])):
             sf = _interp_clamp(case['aps'][j], case['flux'][mid][j], F(case['theta'][j]) * d * 1000) / (d * d)
             want = float(np.log10(float(sf))) + im['av'][i] * float(ks[j])
-            if abs(im['model_fluxes'][i][j] - want) > 1e-8 * (1 + abs(want)):
+            if abs(im['model_fluxes'][i][j] - want) > tol8 * (1 + abs(want)):
                 fail.append('flux: predicted flux of %s in band %d is %r; interpolated flux x (1kpc/d)^2 reddened by the reported A_V gives %r' % (name, j, im['model_fluxes'][i][j], want))
                 break
         if k == r[4]:
             for j, (a, b) in enumerate(zip(im['model_fluxes'][i], r[3])):
-                if not close(a, b, 1e-9, 1e-9):
+                if not close(a, b, tol8 / 10, tol8 / 10):
                     disagree.append('predicted flux %d of %s: %r vs model %r' % (j, name, a, float(b)))
                     break
     # the same source fitted with remove_resolved=True: every row must still describe one model at the reported (A_V, distance)
@@ -180,7 +181,7 @@ def judge(case, im, mo):
         if len(mo) > 3 and not isinstance(mo[3], tuple) and mo[3] and sorted(rr['model_id']) == list(range(len(case['names']))):
             mres = mo[3][0]
             for i, mid in enumerate(rr['model_id']):
-                d3, _ = fitcase.cmp3d_row(rr, i, mres[mid], 1e-8)
+                d3, _ = fitcase.cmp3d_row(rr, i, mres[mid], tol8)
                 for x in d3:
                     disagree.append('remove_resolved=True, %s: %s' % (rr['model_name'][i], x))
                 if d3:
@@ -215,7 +216,7 @@ def judge(case, im, mo):
                 for j in range(len(case['wav'])):
                     sf = _interp_clamp(case['aps'][j], case['flux'][mid][j], F(case['theta'][j]) * d * 1000) / (d * d)
                     want = float(np.log10(float(sf))) + rr['av'][i] * float(ks[j])
-                    if abs(rr['model_fluxes'][i][j] - want) > 1e-8 * (1 + abs(want)):
+                    if abs(rr['model_fluxes'][i][j] - want) > tol8 * (1 + abs(want)):
                         fail.append('flux: remove_resolved=True: predicted flux of %s in band %d is %r; interpolated flux x (1kpc/d)^2 at the reported distance, reddened by the reported A_V, gives %r'
                                     % (rr['model_name'][i], j, rr['model_fluxes'][i][j], want))
                         bad = True
